@@ -353,6 +353,9 @@ pub fn gen_ioplan(rng: &mut Rng, approx_len: u64, reader: bool, allow_hard: bool
             p.eof_at = Some(k);
         } else {
             p.hard_error_at = Some(k);
+            if !reader && rng.chance(1, 2) {
+                p.hard_error_transient = true;
+            }
         }
     }
     p
